@@ -79,6 +79,56 @@ example : searchIndex ⟨true, .ge⟩ 73 (2 ^ 63) = 36 ∧ searchIndex ⟨true, 
 theorem search_in_range (c : Cfg) (hc : Proved c) (n x : Nat) (h1 : 1 ≤ n) (h2 : n ≤ M64) (hx : x < 2 ^ 64) :
     searchIndex c n x < n := (partition_total c hc n x h1 h2 hx).1
 
+/-! ### balance of the partition -/
+
+/-- **inner shards are equally wide**: every shard except the first and the last owns exactly `y = ⌊(2^64−1)/n⌋`
+    hash values (the interval `(nps (i−1), nps i]`) -/
+theorem shard_width_inner (c : Cfg) (hc : Proved c) (n i : Nat) (h0 : 0 < i) (hi : i + 1 < n) :
+    nps c n i - nps c n (i - 1) = yOf n := by
+  rw [proved_eq hc, nps_inner n i hi, nps_inner n (i - 1) (by omega)]
+  have : i - 1 + 1 = i := by omega
+  rw [this, Nat.mul_add, Nat.mul_one]; omega
+
+/-- the first shard owns `[0, y]` (for `n ≥ 2`): `y + 1` values -/
+theorem shard_width_first (c : Cfg) (hc : Proved c) (n : Nat) (h2 : 2 ≤ n) : nps c n 0 = yOf n := by
+  rw [proved_eq hc, nps_inner n 0 (by omega)]; omega
+
+/-- the last shard absorbs the remainder of the division and nothing more: it owns `y + (2^64−1) mod n` values,
+    fewer than `y + n` — the partition is balanced to within `n` hash values out of `2^64` -/
+theorem shard_width_last (c : Cfg) (hc : Proved c) (n : Nat) (h2 : 2 ≤ n) :
+    nps c n (n - 1) - nps c n (n - 2) = yOf n + M64 % n ∧ M64 % n < n := by
+  rw [proved_eq hc, nps_last n (by omega), nps_inner n (n - 2) (by omega)]
+  have e : n - 2 + 1 = n - 1 := by omega
+  rw [e]
+  have hdm : n * (M64 / n) + M64 % n = M64 := Nat.div_add_mod M64 n
+  have hm : yOf n * (n - 1) + yOf n = yOf n * n := by
+    generalize yOf n = y
+    obtain ⟨m, rfl⟩ : ∃ m, n = m + 1 := ⟨n - 1, by omega⟩
+    rw [Nat.add_sub_cancel, Nat.mul_add, Nat.mul_one]
+  have hc' : n * (M64 / n) = yOf n * n := by unfold yOf; exact Nat.mul_comm _ _
+  exact ⟨by omega, Nat.mod_lt _ (by omega)⟩
+
+/-- the share of hashes routed to shard `i`: the number of `x < 2^64` with `searchIndex c n x = i` is the width above —
+    stated pointwise: `x` goes to inner shard `i` iff `y·i < x ≤ y·(i+1)` -/
+theorem shard_membership_inner (c : Cfg) (hc : Proved c) (n x i : Nat) (h1 : 1 ≤ n) (h2 : n ≤ M64) (hx : x < 2 ^ 64)
+    (h0 : 0 < i) (hi : i + 1 < n) :
+    searchIndex c n x = i ↔ (yOf n * i < x ∧ x ≤ yOf n * (i + 1)) := by
+  have e1 : nps c n i = yOf n * (i + 1) := by rw [proved_eq hc]; exact nps_inner n i hi
+  have e0 : nps c n (i - 1) = yOf n * i := by
+    rw [proved_eq hc, nps_inner n (i - 1) (by omega)]
+    have : i - 1 + 1 = i := by omega
+    rw [this]
+  constructor
+  · intro h
+    have ht := partition_total c hc n x h1 h2 hx
+    rw [h] at ht
+    exact ⟨by have := ht.2.2 h0; omega, by have := ht.2.1; omega⟩
+  · rintro ⟨hlo, hhi⟩
+    exact partition_unique c hc n x h1 h2 hx i (by omega) (by omega) (fun _ => by omega)
+/-- non-vacuity, 7 shards: the first boundary is `y`, the last shard is one value wider than the inner ones -/
+example : nps cfgOk 7 0 = yOf 7 ∧ nps cfgOk 7 3 - nps cfgOk 7 2 = yOf 7 ∧ nps cfgOk 7 6 - nps cfgOk 7 5 = yOf 7 + 1 := by
+  decide
+
 /-- `SimpleIndex` of an integer / HitGroup key is in range whatever the conversion to `uint64` is -/
 theorem simple_in_range (arm : KType → Nat → Option (BitVec 64)) (c : Cfg) (hc : Proved c) (hit : Bool) (n : Nat)
     (h1 : 1 ≤ n) (h2 : n ≤ M64) (k : Key) (hh : k.hash < 2 ^ 64) :
